@@ -94,6 +94,9 @@ type FnExec struct {
 	pureMode   bool
 	subSeen    map[*Term]bool
 	rangeMaps  map[*Term]rangeMap
+	atomicLocks bool
+	epochSerial map[int]int // allocation serial at the time each heap epoch began
+	famAxiom    map[string]bool
 }
 
 type rangeMap struct {
@@ -408,7 +411,7 @@ func (fx *FnExec) storeFamilies(addr ssa.Value, out map[string]bool) {
 		case *types.Slice:
 			et = u.Elem()
 		}
-		if isObjT(et) {
+		if isElemObj(et) {
 			fx.typeFamilies(et, out)
 		} else {
 			out["M|"+typeKey(et)+"|"] = true
@@ -438,7 +441,7 @@ func (fx *FnExec) typeFamilies(t types.Type, out map[string]bool) {
 			}
 		}
 	case *types.Array:
-		if isObjT(u.Elem()) {
+		if isElemObj(u.Elem()) {
 			fx.typeFamilies(u.Elem(), out)
 		} else {
 			out["M|"+typeKey(u.Elem())+"|"] = true
@@ -792,7 +795,7 @@ func (fx *FnExec) execInstr(fr *frame, st *State, instr ssa.Instruction) {
 func (fx *FnExec) initZeroObj(st *State, t types.Type, r *Term) {
 	switch u := under(t).(type) {
 	case *types.Array:
-		if isObjT(u.Elem()) {
+		if isElemObj(u.Elem()) {
 			n := u.Len()
 			if n <= 64 {
 				for k := int64(0); k < n; k++ {
@@ -869,7 +872,7 @@ func (fx *FnExec) derefCheck(fr *frame, st *State, p PtrV, pos token.Pos) {
 	if p.Ref == nil || p.Kind == PLocal || p.Kind == PGlobal || p.Kind == PLocalPath {
 		return
 	}
-	if p.Kind == PField || p.Kind == PElem || p.Kind == PView {
+	if p.Kind == PField || p.Kind == PElem || p.Kind == PView || p.Kind == PElemIn {
 		return // checked when the address was formed
 	}
 	c := fx.c
@@ -947,7 +950,7 @@ func (fx *FnExec) fieldAddr(p PtrV, field int) PtrV {
 }
 
 func (fx *FnExec) elemPtr(et types.Type, ref, abs *Term) PtrV {
-	if isObjT(et) {
+	if isElemObj(et) {
 		return PtrV{Kind: PObj, Ref: fx.elemRef(et, ref, abs), Elem: et}
 	}
 	return PtrV{Kind: PElem, Ref: ref, Idx: abs, Elem: et}
@@ -965,6 +968,10 @@ func (fx *FnExec) indexAddr(fr *frame, st *State, x *ssa.IndexAddr) PtrV {
 		fx.boundsCheck(fr, st, x.Pos(), idx, n, x.Index)
 		if p.Kind == PLocalPath {
 			return PtrV{Kind: PLocalPath, Alloc: p.Alloc, Path: p.Path, Idx: idx, Elem: at.Elem()}
+		}
+		if p.Kind == PElem {
+			// pointer to an array-valued element of a slice
+			return PtrV{Kind: PElemIn, Ref: p.Ref, Idx: p.Idx, Idx2: idx, Elem: at.Elem(), Outer: p.Elem}
 		}
 		base := fx.bv64(0)
 		if p.Kind == PView {
@@ -1097,8 +1104,18 @@ func (fx *FnExec) makeSlice(fr *frame, st *State, x *ssa.MakeSlice) Val {
 }
 
 func (fx *FnExec) zeroBacking(st *State, et types.Type, r *Term) {
-	if isObjT(et) {
+	if isElemObj(et) {
 		return // element sub-objects: contents left unconstrained (sound over-approximation)
+	}
+	if isArrayT(et) {
+		// elements are arrays of scalars stored by value: all-zero arrays
+		es := singleSort(et)
+		inner := under(et).(*types.Array).Elem()
+		z := fx.c.ConstArr(es, fx.zeroVal(inner).(*Term))
+		key := elemFamKey(et, "")
+		fam := fx.family(st, key, ArrSort(RefSort, ArrSort(BV(64), es)))
+		fx.setFamily(st, key, fx.c.Store(fam, r, fx.c.ConstArr(ArrSort(BV(64), es), z)))
+		return
 	}
 	for _, lf := range leavesOf(et) {
 		key := elemFamKey(et, lf.name)
